@@ -729,6 +729,15 @@ history!(c05_g_chain_k3, prefix [], 3 of [A1, A2, A3], |m| {
     vcover!(m.n_notar >= 3, "three notar votes are cast");
     vcover!(m.n_quiet >= 2, "two blocks wait for their parents");
 });
+// blocks that do not build on the preceding slot (a misbehaving leader: G3 = slot 3 on A1 with slot 2
+// left out, G2 = slot 2 on genesis with slot 1 left out): in a non-first slot only the child of the
+// block notarized in the preceding slot may be notarized
+const G3: E = blk(3, 6, 1, 1);
+const G2: E = blk(2, 7, 0, 0);
+history!(c05_g_gap_k2, prefix [A1], 2 of [G3, G2, A2, ev(TIMEOUT, 2)], |m| {
+    vcover!(m.n_notar >= 2, "slot 2 is notarized on the block notarized in slot 1");
+    vcover!(m.n_quiet >= 2, "blocks that do not build on the preceding slot are not voted for");
+});
 // blocks against timeouts and invalid blocks
 history!(c05_g_timeouts_k2, prefix [], 2 of [A1, A2, ev(TIMEOUT, 1), ev(TIMEOUT, 3), ev(INVALID, 2), ev(FIRST, 1)], |m| {
     vcover!(m.n_notar >= 1 && m.n_skip >= 1, "a notar vote and a skip vote are cast");
